@@ -56,6 +56,8 @@ class Shape:
         self.spent = []  # the object went through SurfaceSubdivision (its face_corners are gone)
         self.intarr = []
         self.hexa = []   # volume mesh with hexahedral cells (only the medit loader reads those back)
+        self.attrs = []  # per object: list of (cont, a, number of keys)
+        self.closed = [] # closed triangle surface (cut graph)
 
     def add(self, n, kind, tri=False, intarr=False):
         self.n.append(n)
@@ -64,6 +66,8 @@ class Shape:
         self.spent.append(False)
         self.intarr.append(intarr)
         self.hexa.append(False)
+        self.attrs.append([])
+        self.closed.append(False)
         return len(self.n) - 1
 
     def meshes(self):
@@ -154,7 +158,9 @@ def gen_producer(rng, sh, ops, small=True):
         return sh.add(8, 2, tri=t)
     if name == "octahedron":
         ops.append(["proc", name, []])
-        return sh.add(6, 2, tri=True)
+        o = sh.add(6, 2, tri=True)
+        sh.closed[o] = True
+        return o
     if name == "flat_ring":
         N = rng.choice([3, 4, 5])
         ops.append(["proc", name, [N, rng.randint(0, 16), 1]])
@@ -194,6 +200,7 @@ def gen_case(rng, maxops=8):
     sh = Shape()
     ops = []
     inv = []
+    ints = rng.random() < 0.3        # integer-valued numbers travel as Python ints (int64 vectors on the numpy side)
     for _ in range(rng.choice([1, 1, 2, 2, 3])):
         gen_producer(rng, sh, ops)
     L = rng.choice([1, 2, 3, 4, 5, 6, maxops])
@@ -204,13 +211,20 @@ def gen_case(rng, maxops=8):
         anyms = sh.meshes()
         r = rng.random()
         if r < 0.10:
-            m = rng.choice([x for x in anyms if not sh.spent[x]] or anyms)
-            ops.append(["copy", m, rng.random() < 0.4, rng.random() < 0.15])
+            m = rng.choice(anyms)
+            ca = rng.random() < 0.5
+            ops.append(["copy", m, ca, rng.random() < 0.15])
             o = sh.add(sh.n[m], sh.kind[m], sh.tri[m])
             sh.hexa[o] = sh.hexa[m]
+            sh.closed[o] = sh.closed[m]
+            sh.spent[o] = sh.spent[m]
+            if ca:
+                sh.attrs[o] = list(sh.attrs[m])
         elif r < 0.24:
             cnt = rng.choice([1, 2, 2, 3])
-            pool = [x for x in anyms if not sh.spent[x]] or anyms
+            pool = [x for x in anyms if not sh.spent[x]]
+            if not pool:
+                continue
             if rng.random() < 0.3 and any(sh.kind[x] == 3 for x in pool):
                 pool = [x for x in pool if sh.kind[x] == 3]      # volume with volume: mixed tet / hex meshes
             sel = [rng.choice(pool) for _ in range(cnt)]
@@ -289,7 +303,7 @@ def gen_case(rng, maxops=8):
             else:
                 k -= 1
                 gen_producer(rng, sh, ops)
-        elif r < 0.97:
+        elif r < 0.96:
             c = [m for m in anyms if sh.kind[m] in (2, 3) and not sh.spent[m]]
             if c:
                 m = rng.choice(c)
@@ -297,6 +311,57 @@ def gen_case(rng, maxops=8):
                 sh.add(None, sh.kind[m] - 1, False)
             else:
                 gen_producer(rng, sh, ops)
-        else:
+        elif r < 0.99:
             gen_producer(rng, sh, ops)
-    return {"ops": ops, "inv": inv}
+        # ---- the other exporters of the library that build a mesh from the vectors of another one
+        rr = rng.random()
+        surf = [m for m in anyms if sh.kind[m] == 2 and sh.tri[m] and not sh.spent[m] and sh.n[m]]
+        if rr < 0.10 and surf:
+            m = rng.choice(surf)
+            which = rng.choice(["edge", "edge", "face"])
+            ops.append(["tree", m, which])
+            sh.add(sh.n[m] if which == "edge" else None, 1)
+        elif rr < 0.13:
+            vol = [m for m in anyms if sh.kind[m] == 3 and not sh.hexa[m]]
+            if vol:
+                m = rng.choice(vol)
+                ops.append(["tree", m, rng.choice(["cell", "edge"])])
+                sh.add(None, 1)
+        elif rr < 0.21 and surf:
+            m = rng.choice(surf)
+            if sh.n[m] >= 3:
+                tg = rng.sample(range(1, sh.n[m]), rng.choice([1, 2, 2, 3]) if sh.n[m] > 3 else 2)
+                ops.append(["path", m, 0, tg])
+                sh.add(None, 1)
+        elif rr < 0.24 and surf:
+            m = rng.choice(surf)
+            if sh.closed[m]:
+                ops.append(["cutgraph", m, [0, sh.n[m] - 1]])
+            else:
+                ops.append(["features", m])
+            sh.add(None, 1)
+        # ---- mutable state other than coordinates: attributes on any container, element lists
+        rr = rng.random()
+        withn = [m for m in anyms if sh.n[m]]
+        if rr < 0.16 and withn:
+            m = rng.choice(withn)
+            a = rng.randrange(4)
+            if rng.random() < 0.75 or not sh.tri[m]:
+                cont, nk = 0, rng.randint(1, sh.n[m])
+            else:
+                cont, nk = 2, 1
+            ops.append(["attr", m, cont, a, [rng.randint(-9, 9) for _ in range(nk)]])
+            sh.attrs[m] = [x for x in sh.attrs[m] if (x[0], x[1]) != (cont, a)] + [(cont, a, nk)]
+        elif rr < 0.30:
+            c = [m for m in anyms if sh.attrs[m]]
+            if c:
+                m = rng.choice(c)
+                cont, a, nk = rng.choice(sh.attrs[m])
+                ops.append(["attr_edit", m, cont, a, rng.randrange(nk), rng.randint(-9, 9)])
+        elif rr < 0.36:
+            c = [m for m in anyms if sh.kind[m] == 2 and sh.tri[m] and sh.n[m] and not sh.spent[m]]
+            if c:
+                m = rng.choice(c)
+                ops.append(["elem_edit", m, "faces", 0])
+                sh.spent[m] = True      # its corner tables no longer follow its faces: kept out of merge / subdivision
+    return {"ops": ops, "inv": inv, "ints": ints}
